@@ -27,6 +27,14 @@ CLAIMED = {
                      "snapshot/clear/call, self-removing teardown) gives every observer exactly the events issued while it was registered and holds exactly the registered observers; "
                      "C10_replay_history_complete / C10_behavior_latest: the history cells always hold what was pushed. Partial: the hand-over of Behavior/Replay/AsyncSubject to a late "
                      "joiner is proved at the level of the history cells and otherwise decided by the reference-machine oracle applied to the implementation on all short histories."),
+    "C05": dict(engine="coq-seq", design="DESIGN.md 6 C05",
+                technique="machine-checked proof in Coq (every step of the worklist machine decomposed into basic moves; frozen-log invariant preserved by every move, hence by every run; gate invariant for all interleavings) + differential correspondence (sequential) and controlled schedules (concurrent)",
+                text="Theorems C05_unsubscribe_closes / C05_unsubscribe_freezes / C05_nothing_after_unsubscribe: on the sequential machine, for every pipeline over the whole catalogue, every scenario, "
+                     "every pending-request stack and every fuel, once a subscriber's observer has lost its slots (Observer::unsubscribe does so in its first step) nothing is ever added to its log again and it stays "
+                     "closed; C05_unsubscribe_idempotent / C05_closed_delivery_noop: later calls are no-ops; C05_concurrent_nothing_after_unsubscribe_returned: with any number of threads under any interleaving no "
+                     "callback starts for a call begun after unsubscribe returned. Partial: that is_subscribed is true until the first terminal/unsubscribe is judged by the oracle on implementation snapshots after "
+                     "every driver action, not by a theorem. Tie: unsubscribe at every position (driver, from inside a callback, repeated, after terminals) over hot, cold and hand-driven sources; emitter threads racing an "
+                     "unsubscribing thread under the scheduling runtime."),
     "C08": dict(engine="coq-conc", design="DESIGN.md 6 C08",
                 technique="machine-checked proof in Coq (invariants of the queue transition system over all traces) + linearisation check of every observed call/return history against the extracted transition system under a deterministic scheduling runtime",
                 text="Theorems C08_queue_accounting / C08_no_start_after_abort / C08_worker_takes_front / C08_worker_exits_after_abort / C08_notifications_not_lost: for every trace of the queue "
